@@ -6,6 +6,7 @@
    stress harness, props/C20.py), and the extractor harness/lockorder is trusted. *)
 From Coq Require Import List String Bool Arith.
 From Piko Require Import Conc.LockOrder Conc.Acyclic Conc.Expected Conc.Quiescent.
+From Piko Require Conc.Atomic ConcP.AtomicP.
 From Piko Require Import ConcP.LockOrderP ConcP.AcyclicP ConcP.QuiescentP ConcP.LockEdgesP.
 From Piko Require Import generated.LockEdges.
 Import ListNotations.
@@ -85,6 +86,26 @@ Theorem C20_quiescent_consistent : forall (ops : list reg_op) (e : string),
   reg (reg_run ops) e = rt (reg_run ops) e /\ rt (reg_run ops) e = pub (reg_run ops) e.
 Proof. exact quiescent_consistent. Qed.
 
+(* The whole-call granularity of C20_quiescent_consistent is itself a theorem (Conc/Atomic.v, ConcP/AtomicP.v): any
+   number of goroutines, each running any sequence of AddConn / RemoveConn calls made of the individual updates
+   (registry; routing table; read the listener count; publish the count read) between Lock and Unlock of the manager's
+   mutex, under EVERY schedule of their micro-steps: once all have finished, registry = routing table = published count
+   for every endpoint. (That the cluster and gossip updates do happen inside that mutex is what the extracted lock
+   graph shows: C20_expected_order.) *)
+Theorem C20_atomic_calls_consistent : forall (progs : list (list Conc.Atomic.call)) (sched : list nat),
+  let g := Conc.Atomic.grun (ConcP.AtomicP.ginit progs) sched in
+  Conc.Atomic.finished g -> Conc.Atomic.consistent (Conc.Atomic.st g).
+Proof. exact ConcP.AtomicP.atomic_calls_consistent. Qed.
+
+(* ... and it is the mutex that does it: releasing it after the registry update, before the cluster is told (seeded
+   changes C05-1, C16-2, C20-1), two connects of one endpoint can finish with the published count one short *)
+Example C20_early_unlock_refuted :
+  let g := Conc.Atomic.grun (ConcP.AtomicP.ginit_early [[Conc.Atomic.CAdd "e"]; [Conc.Atomic.CAdd "e"]]) [0; 0; 0; 0; 0; 1; 1; 1; 1; 1; 1; 0] in
+  Conc.Atomic.finished g /\ reg (Conc.Atomic.st g) "e" = 2 /\ rt (Conc.Atomic.st g) "e" = 2 /\ pub (Conc.Atomic.st g) "e" = 1.
+Proof. exact ConcP.AtomicP.early_unlock_refuted. Qed.
+
+Print Assumptions C20_atomic_calls_consistent.
+Print Assumptions C20_early_unlock_refuted.
 Print Assumptions C20_ordered_no_deadlock.
 Print Assumptions C20_acyclic_sound.
 Print Assumptions C20_cycle_rejected.
